@@ -819,6 +819,70 @@ def rule_r25_body(body, counts):
     return body
 
 
+def rule_r26_body(body, counts):
+    """R26: `let N = R.iter().filter(|P| C).copied().collect::<Vec<_>>();` -> `let mut N = Vec::new(); for P in R.iter() { if C { N.push(*P); } }`
+            `let N = R.iter().filter_map(|P| E).map(|P2| {B}).collect::<Vec<_>>();` -> `let mut N = Vec::new(); for P in R.iter() { if let Some(P2) = E { let m__ = {B}; N.push(m__); } }`
+    (definitions of the adapters; C, E, B are kept verbatim; they must not contain `return` or `?`)."""
+    def clean(txt):
+        code = re.sub(r'//.*', '', txt)
+        return not (re.search(r'\breturn\b', code) or '?' in re.sub(r'"(\\.|[^"\\])*"', '""', code))
+    pat1 = re.compile(r'^([ \t]*)let (\w+) = ([^\n;]+?)\.iter\(\)\.filter\(\|(\w+)\| ', flags=re.M)
+    while True:
+        m = pat1.search(body)
+        if not m:
+            break
+        op = body.rindex('(', 0, m.end() - len('|%s| ' % m.group(4)))
+        cl = _match_brace(body, op)
+        cond = body[m.end():cl]
+        tail = re.match(r'\.copied\(\)\.collect::<Vec<_>>\(\);', body[cl + 1:])
+        if not tail:
+            break
+        if not clean(cond):
+            raise ExtractError('R26: closure contains return or ?')
+        ind, name, recv, p_ = m.group(1), m.group(2), m.group(3), m.group(4)
+        new = '%slet mut %s = Vec::new(); // [R26]\n%sfor %s in %s.iter() {\n%s    if %s { %s.push(*%s); }\n%s}' % (ind, name, ind, p_, recv, ind, cond.strip(), name, p_, ind)
+        body = body[:m.start()] + new + body[cl + 1 + tail.end():]
+        counts['R26'] = counts.get('R26', 0) + 1
+    pat2 = re.compile(r'^([ \t]*)let (\w+) = ([^\n;]+?)\.iter\(\)\.filter_map\(\|(\w+)\| ', flags=re.M)
+    while True:
+        m = pat2.search(body)
+        if not m:
+            break
+        op = body.rindex('(', 0, m.end() - len('|%s| ' % m.group(4)))
+        cl = _match_brace(body, op)
+        e = body[m.end():cl]
+        m2 = re.match(r'\.map\(\|(\([^)]*\)|\w+)\| \{', body[cl + 1:])
+        if not m2:
+            break
+        ob = cl + 1 + m2.end() - 1
+        cb = _match_brace(body, ob)
+        tail = re.match(r'\)\.collect::<Vec<_>>\(\);', body[cb + 1:])
+        if not tail:
+            break
+        blk = body[ob + 1:cb]
+        if not clean(e) or not clean(blk):
+            raise ExtractError('R26: closure contains return or ?')
+        ind, name, recv, p_, p2 = m.group(1), m.group(2), m.group(3), m.group(4), m2.group(1)
+        e = e.strip()
+        bind = ''
+        # `BASE.map(|w| T)` inside the filter_map closure: Option::map is unfolded as well (`if let Some(w) = BASE { let P2 = T; .. }`)
+        mi = e.rfind('.map(|')
+        if mi >= 0 and _match_brace(e, mi + 4) == len(e) - 1:
+            mm = re.match(r'\|(\w+)\| (.+)$', e[mi + 5:len(e) - 1], flags=re.S)
+            if mm:
+                bind = 'let %s = %s; ' % (p2, mm.group(2).strip())
+                p2_outer, e = mm.group(1), e[:mi]
+            else:
+                p2_outer = p2
+        else:
+            p2_outer = p2
+        new = ('%slet mut %s = Vec::new(); // [R26]\n%sfor %s in %s.iter() {\n%s    if let Some(%s) = %s {\n%s        %slet m__ = {%s};\n%s        %s.push(m__);\n%s    }\n%s}'
+               % (ind, name, ind, p_, recv, ind, p2_outer, e, ind, bind, blk, ind, name, ind, ind))
+        body = body[:m.start()] + new + body[cb + 1 + tail.end():]
+        counts['R26'] = counts.get('R26', 0) + 1
+    return body
+
+
 def rule_r23_body(body, counts):
     """R23: `format!("p0{}p1{}p2", a, b)` -> `verif_fmt2("p0", &a, "p1", &b, "p2")` (only plain `{}` placeholders, at most 3, literal
     format string without escaped braces); the stub's result is the concatenation of the literal pieces and the Display text of the
@@ -855,7 +919,7 @@ def rule_r23_body(body, counts):
                 cur += ch
         if cur.strip():
             args.append(cur.strip())
-        if len(args) != len(pieces) - 1 or not (1 <= len(args) <= 3) or any('=' in a and not '==' in a for a in args):
+        if len(args) != len(pieces) - 1 or not (1 <= len(args) <= 5) or any('=' in a and not '==' in a for a in args):
             continue
         parts = []
         for i, a in enumerate(args):
@@ -874,6 +938,7 @@ def rule_r23_body(body, counts):
 RULES_BODY['R23'] = rule_r23_body
 RULES_BODY['R22'] = rule_r22_body
 RULES_BODY['R25'] = rule_r25_body
+RULES_BODY['R26'] = rule_r26_body
 
 
 def find_line(lines, regex, k, what):
